@@ -131,6 +131,10 @@ MOVABLE_COMMON_SHIMS = r"""
                 old(self).used() < BUFFER_SIZE ==> r.0 is None && r.1 == Some((old(self).q@.len() + 1) as u32) && final(self).q@ == old(self).q@.push(setter.value@),
                 old(self).used() >= BUFFER_SIZE ==> r.0 == Some(setter) && r.1 is None && final(self).q == old(self).q,
     { unimplemented!() }
+    /// publish(setter, report_full_fn, ..) with a report-full callback that may answer `true`: the container RETRIES (spins) while it does -- a rejected send must
+    /// return promptly instead (C16), so any callback other than `|| false` is a failed obligation
+    #[verifier::external_body]
+    pub fn ch_publish_may_wait(&mut self, setter: Setter) -> (r: (Option<Setter>, Option<u32>)) requires false { unimplemented!() }
     #[verifier::external_body]
     pub fn ch_consume_movable(&mut self) -> (r: Option<u64>)
         requires !old(self).held@,
@@ -333,13 +337,15 @@ class PublishWithReport(Rule):
         o = mm.end() - 1
         c = lx.match_close(m, o)
         args = [a.strip() for a in lx.split_args(text[o + 1:c])]
-        if len(args) != 3 or args[0] != "setter" or not re.fullmatch(r"\|\|\s*false", args[1]):
-            raise Undecided(f"{where}: publish(..) is not called as (setter, || false, |len_after| ..) -- contract needs review")
+        if len(args) != 3 or args[0] != "setter" or not re.match(r"\|\|", args[1]):
+            raise Undecided(f"{where}: publish(..) is not called as (setter, || .., |len_after| ..) -- contract needs review")
+        never_retry = bool(re.fullmatch(r"\|\|\s*false", args[1]))
         ma = re.match(r"\|\s*(\w+)\s*\|\s*(\{.*\})$", args[2], re.S)
         if not ma:
             raise Undecided(f"{where}: the length-report argument of publish(..) is not a one-parameter closure with a block body -- contract needs review")
         log[self.rid] = log.get(self.rid, 0) + 1
-        repl = "{ let (setter_option__, reported__) = self.ch_publish(setter); match reported__ { Some(" + ma.group(1) + ") => " + ma.group(2) + ", None => {} } setter_option__ }"
+        callee = "ch_publish" if never_retry else "ch_publish_may_wait"
+        repl = "{ let (setter_option__, reported__) = self." + callee + "(setter); match reported__ { Some(" + ma.group(1) + ") => " + ma.group(2) + ", None => {} } setter_option__ }"
         return text[:mm.start()] + repl + text[c + 1:]
 
 
@@ -454,7 +460,7 @@ def channel_fns(kind, file, impl_p, impl_c, chan_field):
                               "old(self).q@.len() == 0 ==> r is None && final(self).q == old(self).q && final(self).out == old(self).out"))
     # pending_items_count: what flush / close poll (C06) and what C02 / C16 call "pending": the number of published, not yet consumed events
     impl_common = impl_p.replace("ChannelProducer", "ChannelCommon")
-    fns.append(fn("pending_items_count", impl=impl_common, props=["C02", "C06", "C16"],
+    fns.append(fn("pending_items_count", impl=impl_common, props=["C02", "C06", "C16", "C15"],
                   sig="pub fn pending_items_count(&self) -> (r: u32)", sig_anchor=r"fn pending_items_count\(&self\) -> u32",
                   rules=COMMON, requires="self.wf()", ensures="r as int == self.q@.len()"))
     fns.append(fn("buffer_size", impl=impl_common, props=["C02"],
